@@ -375,12 +375,12 @@ mod vharness {
     }
     fn vis(f: Option<V>) -> bool { matches!(f, Some(V::Default) | Some(V::ForceVisible)) }
 
-    //@harness props=C08,C01,C10 strength=proof clause="equality of two objects (entry), objects over three field names, every combination of absent / : / :: / ::: on each side (the names stand for any three names; the arm treats names uniformly): false exactly when their sets of VISIBLE field names differ - hidden fields never take part and are never looked up; both without visible fields => true; otherwise the first visible field (in name order) of BOTH objects is evaluated and compared next, the remaining visible names are queued in order, the assertions of both objects are scheduled, one trace item is counted" timeout=900 replay=cmp_objects
+    //@harness props=C08,C01,C10 strength=bounded bound="objects over two field names (ids 1, 2), all 4^4 combinations of absent / : / :: / :::" clause="equality of two objects (entry), objects over TWO field names, every combination of absent / : / :: / ::: on each side (three names exhausted CBMC's memory: measured): false exactly when their sets of VISIBLE field names differ - hidden fields never take part and are never looked up; both without visible fields => true; otherwise the first visible field (in name order) of BOTH objects is evaluated and compared next, the remaining visible names are queued in order, the assertions of both objects are scheduled, one trace item is counted" timeout=900 replay=cmp_objects
     #[kani::proof]
     #[kani::unwind(8)]
     fn equals_object_entry_contract() {
-        let l = [any_field(), any_field(), any_field()];
-        let r = [any_field(), any_field(), any_field()];
+        let l = [any_field(), any_field(), None];
+        let r = [any_field(), any_field(), None];
         let mut prog = Program(PhantomData);
         let mut e = ev(&mut prog);
         e.value_stack.push(ValueData::Object(object(0, &l))); e.value_stack.push(ValueData::Object(object(1, &r)));
